@@ -86,6 +86,9 @@ fn ref_text(r: &Ref, paths: &[String]) -> (Option<String>, String) {
     let file = match r.file {
         None => None,
         Some(255) => Some("no/such_file.py".to_string()),
+        // the same file spelled with a leading `./` (whether that names the file is not stated; what IS stated is
+        // that the verdict does not depend on where blockwatch is started)
+        Some(i) if (200..204).contains(&i) => Some(format!("./{}", paths[(i - 200) as usize % paths.len()])),
         Some(i) => Some(paths[i as usize % paths.len()].clone()),
     };
     let name = if r.name == 255 { "missing".to_string() } else { NAMES[r.name as usize % NAMES.len()].to_string() };
@@ -652,7 +655,7 @@ fn repair(c: &DriftCase, w: &World, probe: &Probe) -> Verdict {
 }
 
 pub fn file_strategy() -> BoxedStrategy<DFile> {
-    let r = (prop_oneof![3 => Just(None), 2 => (0u8..4).prop_map(Some), 1 => Just(Some(255u8))], prop_oneof![5 => 0u8..7, 1 => Just(255u8)]).prop_map(|(file, name)| Ref { file, name });
+    let r = (prop_oneof![3 => Just(None), 2 => (0u8..4).prop_map(Some), 1 => Just(Some(255u8)), 1 => (200u8..204).prop_map(Some)], prop_oneof![5 => 0u8..7, 1 => Just(255u8)]).prop_map(|(file, name)| Ref { file, name });
     let open = (proptest::option::weighted(0.8, 0u8..7), prop_oneof![2 => Just(vec![]), 2 => proptest::collection::vec(r, 1..4)], any::<u8>(), proptest::bool::weighted(0.15), prop_oneof![3 => Just(0u8), 1 => 0u8..5], proptest::bool::weighted(0.12), prop_oneof![4 => Just(0u8), 1 => 1u8..4])
         .prop_map(|(name, affects, form, multiline, indent, tag_lines, severity)| Item::Open { name, affects, form, multiline, indent, tag_lines, severity });
     let close = (any::<u8>(), prop_oneof![3 => Just(0u8), 1 => 0u8..5]).prop_map(|(form, indent)| Item::Close { form, indent });
@@ -716,7 +719,7 @@ pub fn small_scope_cases() -> Vec<DriftCase> {
 }
 
 pub fn run(run: &mut Run) {
-    run.rule = "enumerated small scope: every edit script of <= 2 single-line operations at every position of a fixed nine-line Python file with nested, linked blocks under -U0 and -U3 (1 624 cases). random: 1..4 files of random suffixes (root or sub-directories, one with a space, two whose names sort differently by bytes and by path components: `f0/` next to `f0.<ext>`, `src-gen/` next to `src/`), each a balanced list of own-line tag comments (any comment form of the language, 15% multi-line comments, 12% start tags spread over several lines, indentation), blocks named from a pool of 7 (duplicates, unnamed, one name holding a colon, one holding two-byte characters) with affects lists of 1..3 references (same file, other file, missing file, missing name, cycles), 20% of them with severity warning / Info (reported, not failing) or the unknown value `warn` (harmless while every link of the block is satisfied, a hard error once it has a stale one) and code lines; an edit script of 0..8 operations on new-side lines (add k lines, delete k lines at a gap, replace a line incl. tag lines; every third replacement differs in trailing blanks only) from which the old state is derived; file fates modified / renamed / new / untouched / an extra deleted file; in 25% further entries in the same diff (a binary file, an added empty file, a changed file of unknown suffix holding unbalanced tags, a file emptied, a mode-only change, a symbolic link replaced by a regular file); hostile removed lines (`-- x`, `--- a/f`, `@@ -1 +1 @@`, …) in 10%; missing trailing newline in 15% (new state) / 25% (old state); CRLF files in 10%; real git in a generated mode (-U0..10, unstaged/--cached/HEAD/commit-to-commit/`git show` of the commit (header and message in front of the diff), 4 diff algorithms, -M). Oracle part 1: flag per block from an independent reader of git's diff (must / must-not / unspecified zones; tag-less lines removed right below a re-written own-line start-tag line or right above a re-written own-line end-tag line count as deleted inside the block - mismatches of exactly that shape are attributed to listed finding K2), part 2: affects diagnostics = reference model over the listed flags, exit status; part 3: after touching every linked block the run passes. Non-trivial = a file with >= 2 hunks, a must-modified block with affects and a must-not block.".into();
+    run.rule = "enumerated small scope: every edit script of <= 2 single-line operations at every position of a fixed nine-line Python file with nested, linked blocks under -U0 and -U3 (1 624 cases). random: 1..4 files of random suffixes (root or sub-directories, one with a space, two whose names sort differently by bytes and by path components: `f0/` next to `f0.<ext>`, `src-gen/` next to `src/`), each a balanced list of own-line tag comments (any comment form of the language, 15% multi-line comments, 12% start tags spread over several lines, indentation), blocks named from a pool of 7 (duplicates, unnamed, one name holding a colon, one holding two-byte characters) with affects lists of 1..3 references (same file, other file, another file spelled with a leading `./`, missing file, missing name, cycles), 20% of them with severity warning / Info (reported, not failing) or the unknown value `warn` (harmless while every link of the block is satisfied, a hard error once it has a stale one) and code lines; an edit script of 0..8 operations on new-side lines (add k lines, delete k lines at a gap, replace a line incl. tag lines; every third replacement differs in trailing blanks only) from which the old state is derived; file fates modified / renamed / new / untouched / an extra deleted file; in 25% further entries in the same diff (a binary file, an added empty file, a changed file of unknown suffix holding unbalanced tags, a file emptied, a mode-only change, a symbolic link replaced by a regular file); hostile removed lines (`-- x`, `--- a/f`, `@@ -1 +1 @@`, …) in 10%; missing trailing newline in 15% (new state) / 25% (old state); CRLF files in 10%; real git in a generated mode (-U0..10, unstaged/--cached/HEAD/commit-to-commit/`git show` of the commit (header and message in front of the diff), 4 diff algorithms, -M). Oracle part 1: flag per block from an independent reader of git's diff (must / must-not / unspecified zones; tag-less lines removed right below a re-written own-line start-tag line or right above a re-written own-line end-tag line count as deleted inside the block - mismatches of exactly that shape are attributed to listed finding K2), part 2: affects diagnostics = reference model over the listed flags, exit status; part 3: after touching every linked block the run passes. Non-trivial = a file with >= 2 hunks, a must-modified block with affects and a must-not block.".into();
     run.assumptions = vec![
         "new-side file names avoid characters git C-quotes (the old name of every second renamed file holds non-ASCII letters and is printed C-quoted)".into(),
         "mixed -/+ groups count through their added lines, plus one shape of surplus removed lines that the diff itself places inside the block: tag-less lines removed right below a re-written own-line start-tag line or right above a re-written own-line end-tag line (listed finding K2); other surplus removed lines of a mixed group are not asserted".into(),
